@@ -108,6 +108,20 @@ def r10_1(ctx):
                             bad.append('%s L%d' % (fi.qual, n.lineno))
     ctx.ob('R10.1', 'who-may-write-value-and-bound', not bad and n_w >= 5, ci, None,
            '%d writes, all inside LaxBoundedSemaphore' % n_w if not bad else 'written outside the class: %s' % bad)
+    # shrink is two steps; a release() may run between them.  Bound first: the release is refused (value == old
+    # bound - ... <= new bound is kept by the refusal).  Slot first: the release is admitted against the old bound,
+    # then the bound drops below the value for good.
+    sh = ci.methods.get('shrink')
+    q.need(sh is not None, 'LaxBoundedSemaphore.shrink not found')
+    low = [dn for (dn, t, v) in q.assigns(sh, 'self._initial_value') if isinstance(dn.ast, ast.AugAssign)
+           and isinstance(dn.ast.op, ast.Sub)]
+    acq = q.nodes_calling(sh, 'self.acquire')
+    q.need(low and acq, 'LaxBoundedSemaphore.shrink: bound decrement / acquire not found')
+    ok = all(sh.cfg.dominated_by(a, low, completed=True)[0] for a in acq)
+    ctx.ob('R10.1', 'shrink:bound-lowered-before-the-slot-is-taken', ok, sh, acq[0],
+           'self._initial_value -= 1 precedes self.acquire()' if ok else
+           'the slot is taken before the bound is lowered: a release() in between is admitted against the old bound '
+           'and the value ends above the bound for good')
 
 
 def r10_2(ctx):
@@ -290,6 +304,8 @@ def run(ctx):
 
 _P = 'billiard/pool.py'
 MUTANTS = [
+    ('shrink-takes-the-slot-first', 'billiard/pool.py', "        self._initial_value -= 1\n        self.acquire()\n",
+     "        self.acquire()\n        self._initial_value -= 1\n", 'R10.1'),
     ('release-check-outside-lock', _P, "        def release(self):\n            cond = self._cond\n            with cond:\n                if self._value < self._initial_value:\n                    self._value += 1\n                    cond.notify_all()\n",
      "        def release(self):\n            if self._value >= self._initial_value:\n                return\n            cond = self._cond\n            with cond:\n                self._value += 1\n                cond.notify_all()\n", 'R10.1'),
     ('release-le', _P, "            with cond:\n                if self._value < self._initial_value:\n                    self._value += 1\n                    cond.notify_all()\n\n        def clear(self):\n            with self._cond:",
